@@ -107,14 +107,23 @@ func (ip *IndexPos) loadChunk() error {
 	}
 	chunk, err := ip.Store.GetChunk(ip.curChunkID)
 	if err != nil {
-		return err
+		return notEOF(err)
 	}
 	b, err := chunk.Data()
 	if err != nil {
-		return err
+		return notEOF(err)
 	}
 	ip.curChunk = b
 	return nil
+}
+
+// notEOF makes sure a store that fails with io.EOF, like a connection that was
+// closed, isn't mistaken for the end of the data by those reading the stream.
+func notEOF(err error) error {
+	if err == io.EOF {
+		return io.ErrUnexpectedEOF
+	}
+	return err
 }
 
 // Seek implements the io.Seeker interface. Sets the offset for the next Read operation.
